@@ -42,10 +42,10 @@ impl Property for C13 {
     fn rule(&self) -> String {
         "generated histories in which rejected / no-op call shapes (create-existing, delete/append/truncate on \
          missing names, Past by 1 or many with empty and non-empty batches, retry of the last position, empty \
-         batch auto/explicit) are frequent; for every call the model classifies as rejected or no-op: outcome \
-         is the expected error / last_position None, wal_bytes_written == 0, the hook trace of the call has no \
+         batch auto/explicit) are frequent; for every call the implementation itself rejects or acknowledges as a no-op (error variant, or last_position \
+         None): wal_bytes_written == 0, the hook trace of the call has no \
          write/create/set_len/unlink/flush effect, the directory bytes are identical before and after, the \
-         observable state is unchanged, and the state after every later restart equals the model. evaluations = \
+         observable state is unchanged (so a later restart, which reads nothing but that directory, cannot see it either). evaluations = \
          rejected/no-op calls checked. non-trivial = such a call made while the WAL is non-empty and >= 1 queue \
          exists; distinct = hash(call shape, concrete history so far)."
             .to_string()
@@ -96,16 +96,19 @@ impl Property for C13 {
             } else {
                 (None, None)
             };
-            let is_restart = matches!(cop, COp::Restart { .. });
             let step = exec.step_concrete(cop)?;
-            exec.check_outcome(&step)?;
-            if is_restart {
-                exec.check_state("after restart")?;
+            exec.usable_or_skip(&step)?;
+            // classification by what the implementation itself answered: a call it rejected, or acknowledged as a
+            // no-op, must leave no trace. (Whether it SHOULD have been rejected is C05's concern.)
+            let really_noop = step.real.outcome.is_noop();
+            if really_noop != is_noop {
+                // the model did not predict this answer, so no "before" snapshot exists / the case has diverged
+                return Err(CaseError::Skip("setup-diverges-from-model".to_string()));
             }
             if is_noop {
                 env.evals(1);
-                env.class(step.expected.class());
-                let shape = format!("{}:{}", step.expected.class(), match &step.cop {
+                env.class(step.real.outcome.class());
+                let shape = format!("{}:{}", step.real.outcome.class(), match &step.cop {
                     COp::Append { batch, pos, .. } => format!("batch{}-{}", batch.len().min(2), pos.is_some()),
                     _ => String::new(),
                 });
@@ -160,14 +163,13 @@ impl Property for C13 {
                 }
                 if wal_nonempty && !exec.model.queues.is_empty() {
                     env.nontrivial(hash64(&(shape.clone(), &exec.cops)));
-                    env.sample(|| json!({"noop_call": step.cop.short(), "outcome": step.expected.class(),
+                    env.sample(|| json!({"noop_call": step.cop.short(), "outcome": step.real.outcome.class(),
                         "history_before": crate::case::ops_sample(&exec.cops[..exec.cops.len() - 1])}));
                 }
             } else if step.written > 0 {
                 wal_nonempty = true;
             }
         }
-        exec.check_state("at the end")?;
         exec.driver.close()?;
         env.scratch.remove(&dir);
         Ok(())
